@@ -47,7 +47,8 @@ EXTRA = {
     "C08": "A further relation re-runs the input without the alignments that lost: all outputs must be the same.",
     "C09": "The transcript-model tables are checked for partition, matrix/linear agreement and against "
            "transcript_model_reads.tsv; the headers of the grouped TPM tables must equal those of the count tables; "
-           "group names containing words of the headers; file:<table>:<read column>.",
+           "group names containing words of the headers; file:<table>:<read column>; the files of a file_name experiment "
+           "given in a YAML file with relative paths.",
     "C10": "Dimensions: repeated / numeric / NA-like names and ids, ids with quotes, numeric labels, per-experiment "
            "short-read files (YAML key illumina bam); 35% of the joint runs keep their saved read assignments and "
            "one more run is restarted from all of them (--read_assignments): its ungrouped tables, assignments and "
@@ -61,12 +62,14 @@ EXTRA = {
     "C12": "Further variants: per-contig BAM files with pruned headers, placed unmapped records, the reference as a "
            "soft-masked copy; history steps that replace the annotation by a file with an earlier time stamp; stage "
            "tie_weights puts fractional weights at rounding borders.",
-    "C13": "Explicit --delta values (0, 3, 9) on top of the matching-strategy presets.",
+    "C13": "Explicit --delta values (0, 3, 9) on top of the matching-strategy presets; exons wholly inside the read's "
+           "first or last block are not skipped (statement), only exons straddling their inner borders stay unspecified.",
     "C14": "Tails aligned as terminal exons of their own; the short reads given as one file or split into two files in "
-           "another order must give the same result.",
+           "another order must give the same result; explicit --delta values; an intron of the read that comes back with "
+           "an end moved stays within delta (strategies without intron-shift correction).",
     "C16": "Hard clips outside the soft clips must not change anything; the tail position may lie beyond the retained "
            "exon by the transcript bases of the removed exons only; chains of 1-4 exons of a few A/T bases between a "
-           "T-rich head and an A-rich tail.",
+           "T-rich head and an A-rich tail; an internal tail position on a retained exon names a tail base of the read.",
     "C17": "Templates: the extended annotation file itself (with CDS records) as reference of a second run, "
            "GENCODE-style per-transcript ids, a gene copied to another contig at identical coordinates, a gene with two "
            "read clusters and a nested gene.",
@@ -78,7 +81,8 @@ EXTRA = {
            "different folders; its runs are started behind a barrier (vlib/barrier_launch.py) so that they begin within "
            "the same millisecond.",
     "C18": "Annotations that carry Canonical attributes of their own (every occurrence is checked); clause for the "
-           "reporting level only_canonical.",
+           "reporting level only_canonical; contigs masked as a whole; unstranded rows flagged True need every intron "
+           "canonical on one strand at least.",
 }
 
 
